@@ -248,6 +248,10 @@ enum Kind {
     Undecodable,
     BadPayload,
     BadMarker,
+    /// a deliverable message followed by more bytes inside the same frame (`DecodeError::TrailingData`)
+    TrailingAfterPayload,
+    /// a frame whose first byte is 131: distribution-header / fragment frames, which this receive path does not read
+    DistHeaderFrame,
     Tick,
     Overlong,
     Cut,
@@ -259,7 +263,8 @@ const ALL_KINDS: &[Kind] = &[
     Kind::SendToAtom, Kind::RegLive, Kind::RegUnknown, Kind::RegNotAtom, Kind::ExitLive, Kind::ExitDead,
     Kind::ExitFromNotPid, Kind::Exit2Live, Kind::SendTtLive, Kind::RegSendTtLive, Kind::ExitTtLive, Kind::Exit2TtLive, Kind::MonExitLive, Kind::MonExitDead, Kind::MonExitBadRef,
     Kind::OtherKnown, Kind::UnknownTag, Kind::WrongArity, Kind::ControlNotTuple, Kind::ControlBadHead,
-    Kind::BadUnlinkId, Kind::Undecodable, Kind::BadPayload, Kind::BadMarker, Kind::Tick, Kind::Overlong,
+    Kind::BadUnlinkId, Kind::Undecodable, Kind::BadPayload, Kind::BadMarker, Kind::TrailingAfterPayload, Kind::DistHeaderFrame,
+    Kind::Tick, Kind::Overlong,
     Kind::Cut, Kind::Close,
 ];
 
@@ -267,7 +272,8 @@ const ALL_KINDS: &[Kind] = &[
 const FAULT_KINDS: &[Kind] = &[
     Kind::SendDead, Kind::SendGhost, Kind::SendNoPayload, Kind::RegUnknown, Kind::ExitDead, Kind::MonExitDead,
     Kind::OtherKnown, Kind::UnknownTag, Kind::WrongArity, Kind::ControlNotTuple, Kind::ControlBadHead,
-    Kind::BadUnlinkId, Kind::Undecodable, Kind::BadPayload, Kind::BadMarker, Kind::Tick, Kind::Overlong,
+    Kind::BadUnlinkId, Kind::Undecodable, Kind::BadPayload, Kind::BadMarker, Kind::TrailingAfterPayload, Kind::DistHeaderFrame,
+    Kind::Tick, Kind::Overlong,
     Kind::Cut, Kind::Close,
 ];
 
@@ -473,6 +479,42 @@ fn gen_item(r: &mut Rng, w: &World, k: Kind) -> Item {
                     let n = r.range(1, 8) as usize;
                     r.bytes(n).into_iter().map(|x| if x == 112 { 7 } else { x }).collect()
                 }
+            };
+            Item::Frame(body)
+        }
+        Kind::TrailingAfterPayload => {
+            // a complete, deliverable SEND / REG_SEND with its message, then more bytes before the frame ends
+            let mut b = if w.names.is_empty() || r.chance(2, 3) {
+                pass_through(&tup(vec![int(2), atom(""), pidt(&pick_pid(r, &w.live, w))]), Some(&payload(r)))
+            } else {
+                let name = r.pick(&w.names).0.clone();
+                pass_through(&tup(vec![int(6), pidt(&w.remote_pid(r)), atom(""), atom(&name)]), Some(&payload(r)))
+            };
+            match r.below(5) {
+                0 => b.push(0),
+                1 => b.extend([131u8, 97, 7]),                      // a second whole term
+                2 => b.extend(erltf::encode(&payload(r)).unwrap()), // likewise, generated
+                3 => b.push(112),
+                _ => {
+                    let n = r.range(1, 4) as usize;
+                    b.extend(r.bytes(n));
+                }
+            }
+            Item::Frame(b)
+        }
+        Kind::DistHeaderFrame => {
+            // what a peer in header mode would send for a deliverable message; flags that select that mode were never offered
+            let ctl = erltf::encode(&tup(vec![int(2), atom(""), pidt(&pick_pid(r, &w.live, w))])).unwrap();
+            let msg = erltf::encode(&payload(r)).unwrap();
+            let mut terms = ctl[1..].to_vec();
+            terms.extend_from_slice(&msg[1..]);
+            let seq = (r.below(1000) + 1).to_be_bytes();
+            let body = match r.below(5) {
+                0 => [vec![131u8, 68, 0], terms].concat(),                                              // DIST_HEADER, no atom refs
+                1 => [vec![131u8, 69], seq.to_vec(), 1u64.to_be_bytes().to_vec(), vec![0], terms].concat(), // only fragment of a sequence
+                2 => [vec![131u8, 69], seq.to_vec(), 2u64.to_be_bytes().to_vec(), vec![0], terms[..terms.len() / 2].to_vec()].concat(),
+                3 => [vec![131u8, 70], seq.to_vec(), 1u64.to_be_bytes().to_vec(), terms[terms.len() / 2..].to_vec()].concat(),
+                _ => [ctl.clone(), msg.clone()].concat(),                                               // two external terms, no marker
             };
             Item::Frame(body)
         }
@@ -1165,7 +1207,7 @@ pub fn run(ctx: &mut Ctx) {
         for (fi, &fk) in faults.iter().enumerate() {
             for pos in 0..=base_len {
                 let stopping = matches!(fk, Kind::Overlong | Kind::Cut | Kind::Close);
-                let errs = matches!(fk, Kind::ControlNotTuple | Kind::ControlBadHead | Kind::BadUnlinkId | Kind::Undecodable | Kind::BadPayload | Kind::BadMarker);
+                let errs = matches!(fk, Kind::ControlNotTuple | Kind::ControlBadHead | Kind::BadUnlinkId | Kind::Undecodable | Kind::BadPayload | Kind::BadMarker | Kind::TrailingAfterPayload | Kind::DistHeaderFrame);
                 if !ctx.thorough && !stopping && !errs && pos != fi % (base_len + 1) {
                     continue;
                 }
